@@ -332,6 +332,7 @@ def _desugar_filter(B, fb, C, log=None):
             B.blocks.append({"stmts": [dict(b0["stmts"][0])], "term": {"k": "goto", "t": tn[0]}})
             B.blocks.append({"stmts": [dict(b0["stmts"][0])], "term": {"k": "goto", "t": ts[0]}})
         _splice(B, STUB, C)
+    blank_unreachable(B)       # the consumer's own test, when both outcomes were sent past it
     B._names = None
     B._cfg = None
     B._defs = None
